@@ -405,6 +405,56 @@ func c17FilterOnly(r *an.Run) {
 				}
 			}
 		}
+		if !noPos {
+			// … or the list of intervals was cleared of them beforehand: slices.DeleteFunc(list, func(iv) bool {
+			// return iv.Start == token.NoPos }) somewhere in the clean-up functions, whose result is what is
+			// iterated here
+			for _, g := range cleanupFuncs(r) {
+				for _, h := range helperGroup(g, 2) {
+					for _, c := range an.CallsTo(h, "slices.DeleteFunc") {
+						var pred *ssa.Function
+						switch v := c.Common().Args[1].(type) {
+						case *ssa.Function:
+							pred = v
+						case *ssa.MakeClosure:
+							pred, _ = v.Fn.(*ssa.Function)
+						}
+						if pred == nil || len(pred.Params) != 1 {
+							continue
+						}
+						all := len(an.Returns(pred)) > 0
+						for _, ret := range an.Returns(pred) {
+							cmp, ok := ret.Results[0].(*ssa.BinOp)
+							var k int64
+							isc := false
+							if ok {
+								k, isc = an.ConstInt(cmp.Y)
+							}
+							if !(ok && cmp.Op == token.EQL && isc && k == 0 && an.Path(cmp.X) == an.ParamName(pred.Params[0])+".Start") {
+								all = false
+							}
+						}
+						call, isCall := c.(*ssa.Call)
+						if !all || !isCall {
+							continue
+						}
+						// the filtered list reaches the function that removes comments
+						for _, site := range an.Calls(h) {
+							if sc := an.StaticCallee(site); sc != nil && (sc == f || inGroup(sc, f) || inGroup(f, sc)) {
+								for _, a := range site.Common().Args {
+									if a == ssa.Value(call) {
+										noPos = true
+									}
+								}
+							}
+						}
+						if h == f {
+							noPos = true
+						}
+					}
+				}
+			}
+		}
 		r.Check(noPos, short(f)+"|nopos-interval-ignored", f.Pos(), "an interval without a valid start removes no comment")
 	}
 	r.Rule("R2-comment-lists-only-shrink")
@@ -463,15 +513,43 @@ func c17SpansAsGiven(r *an.Run) {
 			continue
 		}
 		start, end := paramAt(f, 0), paramAt(f, 1)
-		var gotS, gotE ssa.Value
-		for _, in := range an.StoresIn(f) {
-			if st, ok := in.(*ssa.Store); ok {
-				if fa, ok := st.Addr.(*ssa.FieldAddr); ok && strings.HasSuffix(an.ShortType(fa.X.Type()), "engine.span") {
-					switch fieldNameOf(fa) {
-					case "Start":
-						gotS = st.Val
-					case "End":
-						gotE = st.Val
+		spanFields := func(g *ssa.Function) (s, e ssa.Value) {
+			for _, in := range an.StoresIn(g) {
+				if st, ok := in.(*ssa.Store); ok {
+					if fa, ok := st.Addr.(*ssa.FieldAddr); ok && strings.HasSuffix(an.ShortType(fa.X.Type()), "engine.span") {
+						switch fieldNameOf(fa) {
+						case "Start":
+							s = st.Val
+						case "End":
+							e = st.Val
+						}
+					}
+				}
+			}
+			return
+		}
+		gotS, gotE := spanFields(f)
+		if gotS == nil && gotE == nil {
+			// the span is built by a private constructor (spanSet(start, end)): what it stores are its own
+			// parameters, and the recorder hands it start and end in that order
+			for _, c := range an.Calls(f) {
+				h := an.StaticCallee(c)
+				if h == nil || !an.InModule(h) || h.Blocks == nil {
+					continue
+				}
+				hs, he := spanFields(h)
+				if hs == nil || he == nil {
+					continue
+				}
+				for i, p := range h.Params {
+					if i >= len(c.Common().Args) {
+						continue
+					}
+					if hs == ssa.Value(p) {
+						gotS = c.Common().Args[i]
+					}
+					if he == ssa.Value(p) {
+						gotE = c.Common().Args[i]
 					}
 				}
 			}
